@@ -1,9 +1,9 @@
 From Coq Require Import Extraction ExtrOcamlBasic.
 From SqfsV Require Import C19.ObjHeap C19.ObjHooks C19.ObjKinds C19.ObjSpec C19.ObjCheckDefs
-     C19.ObjInstDefs C19.ObjMach.
+     C19.ObjInstDefs C19.ObjMach C19.ObjGenDefs.
 Extraction "c19_model.ml"
   sqfs_copy sqfs_drop sqfs_grab touch_obj HK_fixed HK_old DK hooks_ok
   mk_flat mk_res mk_meta mk_table mk_data mk_dir mk_xrd mk_xwr a_file a_cmp
-  classify rc_of live_count copyable abs_obj
+  classify rc_of live_count copyable copyable_g abs_obj
   id_to_index index_to_id frag_append frag_set frag_lookup frag_size
   xwr_empty xwr_begin xwr_add xwr_end copy_state.
